@@ -750,6 +750,154 @@ struct P_C02t
     }
 };
 
+
+// ---------------------------------------------------------------------------------------------------
+// C02h: the library's helper functors as rule functors in a parser written in the DSL (C02 quantifies over "helper functors" too):
+// push_back / emplace_back with the container before and after the element and with leading / separating symbols of different counts,
+// _eN at several positions, val, create, construct; plain int / std::vector<int> values, so that a wrongly selected right-side value
+// (e.g. the separator's character) still converts and shows up in the RESULT, compared with an independent evaluation of the text.
+namespace fh
+{
+using namespace ctpg; using namespace ctpg::ftors;
+using IV = std::vector<int>;
+struct Top { IV ll, rl, wl, vl; int tag = 0; bool operator==(const Top& o) const { return ll == o.ll && rl == o.rl && wl == o.wl && vl == o.vl && tag == o.tag; } };
+constexpr char h_num_pattern[] = "[0-9]+";
+struct h_limits { static const size_t state_count_cap = 200; static const size_t max_sit_count_per_state_cap = 200; };   // (the default limits make the analyzer too big for the engine's stack)
+inline const auto& parser_h()
+{
+    static const auto* p = []
+    {
+        constexpr nterm<int> num("num"), tag("tag");
+        constexpr nterm<IV> ll("ll"), rl("rl"), wl("wl"), vl("vl");
+        constexpr nterm<Top> top("top");
+        constexpr regex_term<h_num_pattern> number("number");
+        return new parser(
+            top, terms(number, ',', ';', ':', '(', ')', '[', ']', '!', '#'), nterms(top, ll, rl, wl, vl, num, tag),
+            rules(
+                top(ll, ';', rl, ';', wl, ';', vl, tag) >= [](IV&& a, skip, IV&& b, skip, IV&& c, skip, IV&& d, int t) { return Top{std::move(a), std::move(b), std::move(c), std::move(d), t}; },
+                num(number) >= [](std::string_view sv) { int v = 0; for (char c : sv) v = (v * 10 + (c - '0')) % 100000; return v; },
+                num('(', num, ')') >= _e2,
+                num('[', '[', num, ']', ']') >= _e3,
+                ll(num) >= construct<IV>{},                                  // IV{n}: a one-element list
+                ll(ll, ',', num) >= push_back<1, 3>{},                       // container first, one symbol between
+                rl(num) >= construct<IV, 1>{},
+                rl(num, ',', rl) >= push_back<3, 1>{},                       // element first, one symbol between (lead 0, gap 1)
+                wl('!') >= create<IV>{},
+                wl('(', num, ':', ':', wl) >= emplace_back<5, 2>{},          // element first with a leading symbol and two between (lead 1, gap 2)
+                vl('!') >= create<IV>{},
+                vl(vl, ':', '(', num) >= emplace_back<1, 4>{},               // container first, two between
+                tag() >= val(7),
+                tag('#', num) >= _e2
+            ),
+            use_generated_lexer{}, h_limits{});
+    }();
+    return *p;
+}
+// independent evaluation (no LR machinery): ll ; rl ; wl ; vl tag
+inline bool eval_h(const std::string& text, Top& out)
+{
+    // blanks separate terms: two numbers separated only by blanks stay two terms (marked with a byte that nothing accepts)
+    std::string t; bool gap = false;
+    for (char c : text) { if (c == ' ' || c == '\t' || c == '\n' || c == '\r' || c == '\v' || c == '\f') { gap = true; continue; } if (gap && !t.empty() && isdigit((unsigned char)t.back()) && isdigit((unsigned char)c)) t += '\x01'; gap = false; t += c; }
+    size_t p = 0;
+    std::function<bool(int&)> num = [&](int& v) -> bool
+    {
+        if (p < t.size() && isdigit((unsigned char)t[p])) { v = 0; while (p < t.size() && isdigit((unsigned char)t[p])) v = (v * 10 + (t[p++] - '0')) % 100000; return true; }
+        if (p < t.size() && t[p] == '(') { ++p; if (!num(v)) return false; if (p >= t.size() || t[p] != ')') return false; ++p; return true; }
+        if (p + 1 < t.size() && t[p] == '[' && t[p + 1] == '[') { p += 2; if (!num(v)) return false; if (p + 1 >= t.size() || t[p] != ']' || t[p + 1] != ']') return false; p += 2; return true; }
+        return false;
+    };
+    auto expect = [&](char c) { if (p < t.size() && t[p] == c) { ++p; return true; } return false; };
+    int v = 0;
+    // ll: num (',' num)*  in order
+    if (!num(v)) return false; out.ll.push_back(v);
+    while (p < t.size() && t[p] == ',') { ++p; if (!num(v)) return false; out.ll.push_back(v); }
+    if (!expect(';')) return false;
+    // rl: num (',' num)*  : built from the tail -> reversed
+    { std::vector<int> xs; if (!num(v)) return false; xs.push_back(v); while (p < t.size() && t[p] == ',') { ++p; if (!num(v)) return false; xs.push_back(v); } out.rl.assign(xs.rbegin(), xs.rend()); }
+    if (!expect(';')) return false;
+    // wl: ( '(' num ':' ':' )* '!'  : built from the tail -> reversed
+    { std::vector<int> xs; while (p < t.size() && t[p] == '(') { size_t save = p; ++p; if (!num(v)) { p = save; return false; } if (!expect(':') || !expect(':')) return false; xs.push_back(v); } if (!expect('!')) return false; out.wl.assign(xs.rbegin(), xs.rend()); }
+    if (!expect(';')) return false;
+    // vl: '!' ( ':' '(' num )*  in order
+    if (!expect('!')) return false;
+    while (p + 1 < t.size() && t[p] == ':' && t[p + 1] == '(') { p += 2; if (!num(v)) return false; out.vl.push_back(v); }
+    out.tag = 7;
+    if (p < t.size() && t[p] == '#') { ++p; if (!num(v)) return false; out.tag = v; }
+    return p == t.size();
+}
+}
+
+struct P_C02h
+{
+    struct Case { std::vector<std::string> inputs; };
+    static const char* id() { return "C02h"; }
+    static Case gen(Choice& ch)
+    {
+        Case c; eng::Rng rng = ch.fork(); int n = 3 + int(ch.below(8));
+        for (int i = 0; i < n; ++i)
+        {
+            std::function<std::string(int)> num = [&](int depth) -> std::string
+            {
+                uint32_t k = depth > 3 ? 5 : rng.below(6);
+                if (k == 0) return "(" + num(depth + 1) + ")";
+                if (k == 1) return "[[" + num(depth + 1) + "]]";
+                return std::to_string(rng.below(rng.chance(1, 4) ? 100000 : 50));
+            };
+            auto sp = [&]() { return rng.chance(1, 5) ? std::string(rng.chance(1, 2) ? " " : "\n") : std::string(); };
+            auto cnt = [&]() -> size_t { uint32_t k = rng.below(30); return k == 0 ? 1030 + rng.below(300) : k < 3 ? 20 + rng.below(60) : rng.below(6); };
+            std::string s;
+            { size_t k = 1 + cnt(); for (size_t j = 0; j < k; ++j) { if (j) s += "," + sp(); s += num(0); } }
+            s += ";" + sp();
+            { size_t k = 1 + cnt(); for (size_t j = 0; j < k; ++j) { if (j) s += "," + sp(); s += num(0); } }
+            s += ";" + sp();
+            { size_t k = cnt(); for (size_t j = 0; j < k; ++j) s += "(" + num(0) + "::" + sp(); s += "!"; }
+            s += ";" + sp();
+            { s += "!"; size_t k = cnt(); for (size_t j = 0; j < k; ++j) s += ":(" + num(0) + sp(); }
+            if (rng.chance(1, 2)) s += "#" + num(0);
+            if (rng.chance(1, 5) && !s.empty()) { size_t pos = rng.below(uint32_t(s.size())); switch (rng.below(3)) { case 0: s.erase(pos, 1); break; case 1: s.insert(pos, 1, ",;:()[]!#7"[rng.below(10)]); break; default: s[pos] = ",;:()[]!#7"[rng.below(10)]; break; } }
+            c.inputs.push_back(s);
+        }
+        return c;
+    }
+    static vj::Value to_json(const Case& c) { vj::Value o = vj::Value::object(); o.set("kind", "fixed-parser-H(helper functors)"); vj::Value a = vj::Value::array(); for (auto& s : c.inputs) a.push(s); o.set("inputs", a); return o; }
+    static Case from_json(const vj::Value& v) { Case c; for (size_t i = 0; i < v.at("inputs").size(); ++i) c.inputs.push_back(v.at("inputs").at(i).as_str()); return c; }
+    static std::vector<Case> shrinks(const Case& c, const vj::Value& d)
+    {
+        std::vector<Case> out;
+        if (d.has("input_index") && c.inputs.size() > 1) { size_t k = size_t(d.at("input_index").as_int()); if (k < c.inputs.size()) { Case x; x.inputs = {c.inputs[k]}; out.push_back(x); } }
+        if (c.inputs.size() == 1) { const std::string& s = c.inputs[0]; for (size_t chunk = std::max<size_t>(s.size() / 2, 1); ; chunk /= 2) { for (size_t p = 0; p + chunk <= s.size(); p += chunk) { Case x = c; x.inputs[0].erase(p, chunk); out.push_back(x); } if (chunk <= 1) break; } }
+        return out;
+    }
+    static Verdict eval(const Case& c, Stats& st)
+    {
+        size_t interesting = 0; bool deep = false;
+        for (size_t k = 0; k < c.inputs.size(); ++k)
+        {
+            fh::Top want; bool ok = fh::eval_h(c.inputs[k], want);
+            std::optional<fh::Top> got; ctpg::utils::no_stream ns; bool threw = false; std::string exc;
+            try { got = fh::parser_h().parse(ctpg::parse_options{}, ctpg::buffers::string_buffer(std::string(c.inputs[k])), ns); } catch (const std::exception& e) { threw = true; exc = e.what(); }
+            st.sub_evaluations += st.counting ? 1 : 0;
+            vj::Value d = vj::Value::object(); d.set("input_index", (unsigned long long)k); d.set("input", c.inputs[k].size() > 500 ? c.inputs[k].substr(0, 500) + "..." : c.inputs[k]);
+            if (threw) { d.set("exception", exc); return Verdict::fail("parse threw", d); }
+            if (got.has_value() != ok) { d.set("expected_accept", ok); return Verdict::fail("acceptance differs from the grammar", d); }
+            if (ok && !(got.value() == want))
+            {
+                auto arr = [](const std::vector<int>& v) { vj::Value a = vj::Value::array(); for (size_t i = 0; i < v.size() && i < 40; ++i) a.push(v[i]); return a; };
+                const char* which = got->ll != want.ll ? "ll: push_back<1,3>" : got->rl != want.rl ? "rl: push_back<3,1>" : got->wl != want.wl ? "wl: emplace_back<5,2>" : got->vl != want.vl ? "vl: emplace_back<1,4>" : "tag: val / _e2";
+                const std::vector<int>& g = got->ll != want.ll ? got->ll : got->rl != want.rl ? got->rl : got->wl != want.wl ? got->wl : got->vl;
+                const std::vector<int>& w = got->ll != want.ll ? want.ll : got->rl != want.rl ? want.rl : got->wl != want.wl ? want.wl : want.vl;
+                d.set("list", which); d.set("expected", arr(w)); d.set("observed", arr(g)); d.set("expected_tag", want.tag); d.set("observed_tag", got->tag);
+                return Verdict::fail("a rule whose functor is one of the library's helpers did not yield the value of the derivation tree (wrong right-side value selected or lost)", d);
+            }
+            if (ok && want.ll.size() + want.rl.size() + want.wl.size() + want.vl.size() >= 5) ++interesting;
+            if (ok && (want.rl.size() >= 1024 || want.wl.size() >= 1024)) deep = true;
+        }
+        if (interesting && st.counting && st.nontriv(eng::hstr(to_json(c).dump()))) { st.label("nontrivial"); st.label("fixed-parser:H(helper functors)"); if (deep) st.label("list>=1024-elements"); if (st.want_sample()) { vj::Value s = vj::Value::object(); vj::Value a = vj::Value::array(); for (auto& x : c.inputs) if (x.size() < 100) a.push(x); s.set("inputs", a); st.sample(s); } }
+        return Verdict::pass();
+    }
+};
+
 struct FCase { int which = 0; std::vector<gg::Input> inputs; };
 struct P_C08t
 {
@@ -1029,6 +1177,7 @@ int main(int argc, char** argv)
         else if (a.prop == "C08") rc = eng::run_property<GP<C08>>(a);
         else if (a.prop == "C08t") rc = eng::run_property<P_C08t>(a);
         else if (a.prop == "C02t") rc = eng::run_property<P_C02t>(a);
+        else if (a.prop == "C02h") rc = eng::run_property<P_C02h>(a);
         else if (a.prop == "C09") rc = eng::run_property<GP<C09>>(a);
         else if (a.prop == "C10") rc = eng::run_property<GP<C10>>(a);
         else if (a.prop == "C11") rc = eng::run_property<GP<C11>>(a);
